@@ -10,7 +10,10 @@ import (
 )
 
 func TestLegacyVectors(t *testing.T) {
-	for _, c := range []struct{ f func([]byte) []byte; in, want string }{
+	for _, c := range []struct {
+		f        func([]byte) []byte
+		in, want string
+	}{
 		{Legacy256, "", "c5d2460186f7233c927e7db2dcc703c0e500b653ca82273b7bfad8045d85a470"},
 		{Legacy256, "abc", "4e03657aea45a94fc7d47ba826c8d667c0d1e6e33a64a036ec44f58fa12d6c45"},
 		{Legacy512, "", "0eab42de4c3ceb9235fc91acffe746b29c29a8c366b7c60e4e67c466f36a4304c00fa9caf9d87976ba469bcbe06713b435f091ef2769fb160cdab33d3670680e"},
